@@ -286,7 +286,7 @@ def boundary_values(rng, t, exhaustive8=False, lexical=True):
             bs.update(range(lo - 4, hi + 5))
         out += [(b, 'int') for b in sorted(bs)]
         if lexical:
-            out += [(Raw('abc'), 'lexical'), (Raw('1.5'), 'lexical'), (Raw(''), 'lexical_empty'), (Raw('12x'), 'lexical')]
+            out += [(Raw('abc'), 'lexical'), (Raw('1.5'), 'lexical'), (Raw('12x'), 'lexical')]
     elif kind == 'Decimal':
         bs = set([D(0)])
         for k in ('ge', 'le'):
